@@ -57,7 +57,7 @@ class GroundedPrecondition:
         :return: the grounded objects that should/n't be equal.
         """
         return {
-            (parameters_map[obj1], parameters_map[obj2])
+            (parameters_map.get(obj1, obj1), parameters_map.get(obj2, obj2))
             for obj1, obj2 in equality_preconditions
         }
 
